@@ -131,7 +131,7 @@ def g_node(n) -> str:
     if isinstance(n, (Table, Path, SubQuery)):
         return "NData " + g_dataset(n)
     if isinstance(n, Column):
-        ps = "; ".join(g_dataset(p) for p in n.parent_candidates)
+        ps = "; ".join(g_dataset(p) for p in n.parent_candidates if p is not None)
         return "NCol {| craw := %s; cparents := [%s] |}" % (coq_string(n.raw_name), ps)
     if isinstance(n, str):
         return "NStr " + coq_string(n)
@@ -186,7 +186,8 @@ def s_node(n, canon=False) -> str:
     if isinstance(n, (Table, Path, SubQuery)):
         return s_dataset(n, canon)
     if isinstance(n, Column):
-        return "C:" + col_name(n, canon) + "{" + ",".join(s_dataset(p, canon) for p in n.parent_candidates) + "}"
+        # (Column.parent = None puts None into the parent set; it is not a candidate owner)
+        return "C:" + col_name(n, canon) + "{" + ",".join(s_dataset(p, canon) for p in n.parent_candidates if p is not None) + "}"
     if canon and isinstance(n, str) and n.startswith("subquery_"):
         return "A:" + n   # replaced below when the owner is known
     return "A:" + str(n)
